@@ -149,6 +149,20 @@ impl Property for C20 {
         // giving Suspend barriers a value range trigger_noop never uses (values >= 100 are "noop-safe")
         for s in sources.iter_mut() {
             let n = rng.usize(1, 5);
+            // sometimes a burst of identical triggers that nobody reaps in between (many unconsumed
+            // reports on one barrier)
+            if rng.chance(1, 8) {
+                let v = rng.below(nvals as u64) as u32;
+                let k = rng.usize(17, 40);
+                let op = match rng.below(3) {
+                    0 => SrcOp::TriggerNoop(100 + v),
+                    1 => SrcOp::Trigger(100 + v),
+                    _ => SrcOp::Trigger(v),
+                };
+                for _ in 0..k {
+                    s.push(op.clone());
+                }
+            }
             for _ in 0..n {
                 let v = rng.below(nvals as u64) as u32;
                 s.push(match rng.below(10) {
@@ -320,6 +334,9 @@ fn run_exec(sc: &Scenario, log: &mut Log, rep: &mut Report) -> Option<Violation>
                 Some(&bi) => match mb[bi].react {
                     React::Noop => {
                         mb[bi].queue.push_back((v, None));
+                        if mb[bi].queue.len() > 16 {
+                            rep.probes.inc("more_than_16_unreaped_reports_on_one_barrier");
+                        }
                         mprog[s] += 1;
                     }
                     React::Suspend => {
